@@ -20,6 +20,7 @@ var Checks = map[string]Check{
 	"C12": {Fn: CheckC12},
 	"C13": {Fn: CheckC13},
 	"C14": {Fn: CheckC14},
+	"C15": {Fn: CheckC15},
 	"C16": {Fn: CheckC16},
 	"C17": {Fn: CheckC17},
 	"C18": {Fn: CheckC18},
